@@ -269,6 +269,23 @@ class RefTerm:
         self.c = min(cursor[1], w - 1)
         self.wrap = False
 
+    def move_content(self, d):
+        """vertical content movement as a terminal emulator produces it: d > 0 - the terminal gets d rows taller and
+        the content (with the cursor) moves down; d < 0 - the content (with the cursor) moves up, lines leaving at the
+        top go to the scrollback.  Returns the new height."""
+        if d > 0:
+            self.h += d
+            self.main = [[BLANK] * self.w for _ in range(d)] + self.main
+            self.r += d
+        elif d < 0:
+            k = min(-d, self.r)
+            for _ in range(k):
+                self.scrollback.append(self.main.pop(0))
+                self.main.append([BLANK] * self.w)
+            self.r -= k
+        self.wrap = False
+        return self.h
+
     def fill_junk(self, junk_seed):
         scr = self.screen
         for y in range(self.h):
